@@ -23,9 +23,8 @@ SIGNED = ('modularity_louvain_und_sign', 'modularity_finetune_und_sign', 'modula
 TAKES_START = FINETUNE + ('community_louvain',)
 DET_GAIN = LOUVAIN + FINETUNE + ('community_louvain',)
 ZERO = ('modularity_und', 'modularity_dir', 'modularity_und_sign')
-BOOL_OK = ('community_louvain', 'modularity_finetune_und', 'modularity_finetune_dir', 'modularity_und', 'modularity_dir')
-UNSIGNED_OK = ('community_louvain', 'modularity_louvain_und', 'modularity_finetune_und', 'modularity_finetune_dir', 'modularity_und', 'modularity_dir',
-               'modularity_finetune_und_sign', 'modularity_probtune_und_sign', 'modularity_und_sign')
+# every optimiser works on a float view of W (since 1918deb), so boolean and unsigned containers are legal input everywhere
+BOOL_OK = UNSIGNED_OK = LOUVAIN + FINETUNE + ('community_louvain', 'modularity_probtune_und_sign', 'modularity_und_sign', 'modularity_und', 'modularity_dir')
 CROSS = {'und': ('modularity_louvain_und', 'modularity_finetune_und', 'community_louvain'), 'dir': ('community_louvain', 'modularity_finetune_dir'),
          'sign': ('modularity_louvain_und_sign', 'modularity_finetune_und_sign')}
 QTOL = 1e-8
@@ -445,23 +444,23 @@ def gen_case(sub, routines, scn_id, nmax=12):
         weighted = 'float'
     narrow8 = False
     if kind == 'sign' and not onesign and weighted is None and rnd.random() < 0.1:
-        W = W.astype(np.int8)  # a +-1 sign matrix in its natural container (works on the unchanged tree: not the 8-bit finding)
+        W = W.astype(np.int8)  # a +-1 sign matrix in its natural container
         weighted = 'float'
-    if weighted == 'int' and kind != 'sign' and rnd.random() < 0.03:
-        # small integer weights held in an 8-bit container: the optimisers accumulate degrees in the container's dtype
-        W = W.astype(rnd.choice((np.uint8, np.int8)))
+    if weighted == 'int' and np.abs(W).max() <= 127 and rnd.random() < 0.06:
+        # small integer weights held in an 8-bit container: degree sums exceed the container's range, the optimisers must not
+        # accumulate in it
+        W = W.astype(np.int8 if (W < 0).any() else rnd.choice((np.uint8, np.int8)))
         narrow8 = True
         weighted = 'float'  # no further container games
     if weighted == 'int' and (kind != 'sign' or onesign) and not narrow8 and routine in UNSIGNED_OK and (p.get('B') in (None, 'modularity', 'potts')) and rnd.random() < (0.05 if kind != 'sign' else 0.4):
-        W = W.astype(rnd.choice((np.uint16, np.uint32)))  # unsigned counts (only for the routines that take them on the unchanged tree)
+        W = W.astype(rnd.choice((np.uint16, np.uint32)))  # unsigned counts
         weighted = 'float'
     r = rnd.random()
     meta_f32 = False
     if weighted != 'float' and r < 0.12:
         W = W.astype(rnd.choice((np.int64, np.int32)))  # integer container
     elif weighted is None and routine in BOOL_OK and kind != 'sign' and r < 0.22 and set(np.unique(W).tolist()) <= {0.0, 1.0}:
-        # boolean adjacency matrix - only for the routines that accept one on the unchanged tree (the Louvain and *_sign
-        # routines raise numpy's "boolean subtract/negative is not supported" TypeError at once: loud, outside every property)
+        # boolean adjacency matrix
         W = W.astype(bool)
     elif r > 0.95:
         W = W.astype(np.float32)
